@@ -182,6 +182,53 @@ def oracle(ctx):
         H.exhaustive_rack(C.Report(), 2, 'oracle', on_step=on_step)
     rep.dist['oracle.raising-calls-observed'] += stats['raising']
     rep.dist['oracle.rejected-items-reused'] += stats['reuse']
+    _calculator_worlds(ctx, rep)
+
+
+def _calculator_worlds(ctx, rep):
+    """Raising calls in worlds with a rich dogma universe (hull bonuses on the ship itself, charge <-> module
+    modifiers, projected effects): the attribute values, running effects, statistics and validation verdicts of
+    EVERY item must be what they were before the call (a roll-back that re-adds an item while the slot still
+    points at the rejected one loses exactly such modifiers)."""
+    from harness import world as W
+    from harness import worldcorr as WC
+    from props import _worldfam as F
+    for pname in ('projheavy', 'basic'):
+        p = dict(F.PARAM_SETS[pname], malformed=0.5, nsteps=50)
+        base = ctx.sub_rnd('calc-worlds', pname).randrange(10 ** 9)
+        for k in range(ctx.n(15, 400)):
+            seed = base + k
+            rnd, w = WC.make_world(seed, p)
+            gen = W.OpGen(rnd, p)
+            done = []
+            while len(done) < p['nsteps']:
+                for op in gen.next(w):
+                    try:
+                        before = (w.observe(), W.observe_stats(w))
+                    except ZeroDivisionError:
+                        before = None
+                    try:
+                        out = w.apply(op)
+                    except Exception as e:
+                        out = 'raises:' + type(e).__name__
+                    done.append(op)
+                    rep.dist['calc-world-%s' % ('raising' if out != 'ok' else 'ok')] += 1
+                    if out == 'ok' or before is None:
+                        continue
+                    try:
+                        after = (w.observe(), W.observe_stats(w))
+                    except ZeroDivisionError:
+                        continue
+                    bad = F.equal_obs(before[0][0], after[0][0])
+                    sbad = [k2 for k2 in before[1] if not W.flat_equal(before[1][k2], after[1].get(k2))]
+                    if bad or before[0][1] != after[0][1] or sbad:
+                        rep.violate('%s raised %s and changed the world: values %r stats %r' % (op[0], out, bad[:2], sbad[:2]),
+                                    dict(F.case_of(seed, pname, done), oracle='before/after around a raising call'))
+                        break
+                else:
+                    continue
+                break
+            rep.case(sig=('calc-world', pname, seed), kind='calc-world-' + pname)
 
 
 def search(ctx, broken):
